@@ -21,7 +21,8 @@ RULE = ("Constructor inputs as plain data x one global duration setting (readout
         "description route {none, from_chain, from_initial_state, from_connectivity(sub-chain of the three shipped "
         "layouts)} and refocusing on/off as in C09, and construct_calibration_circuit (QUBIT / QUTRIT, 1..6 qubits on "
         "arbitrary distinct channel indices). duration_grid enumerates all 4^4 settings over {0.5,1,2,3} for a fixed d=2, "
-        "3-cycle chain (full constructor, refocusing on) completely. Each case builds the circuit inside the override "
+        "3-cycle chain (full constructor, refocusing on) completely; cycle_sweep enumerates cycles 0..6 (thorough 0..8) x "
+        "{full, simplified} x refocusing on/off x 3 (thorough 5) fixed duration settings for a d=3 chain. Each case builds the circuit inside the override "
         "twice: as built, and followed by apply_modifiers(); operations are listed once, then all times are read under "
         "the same setting. Non-trivial = durations differ from the default (2,1,1,2) and, for repetition-code "
         "constructors, at least one QEC cycle; distinct = distinct canonical JSON of the case.")
@@ -304,12 +305,26 @@ def body(case, ctx):
         _body(case, ctx)
 
 
+def items_cycle_sweep(tier):
+    """Every cycle count across the constructor's 2/3/4-cycle structure switches, both constructors, refocusing on/off."""
+    settings = [[2.0, 1.0, 1.0, 2.0], [0.5, 2.0, 1.0, 1.0], [3.0, 0.5, 1.5, 0.25]]
+    if tier == "thorough":
+        settings += [[1.0, 1.0, 4.0, 3.0], [4.0, 3.0, 0.25, 0.5]]
+    for ctor in ("full", "simplified"):
+        for cycles in range(0, 9 if tier == "thorough" else 7):
+            for refocus in (True, False):
+                for durations in settings:
+                    yield {"ctor": ctor, "d": 3, "data": [0, 1, 1], "anc": None, "cycles": cycles, "desc": "chain",
+                           "refocus": refocus, "durations": durations}
+
+
 def parts():
     return [
         Part("duration_grid", body, items=items_grid, exhaustive=True),
-        Part("repcode_full", body, strategy=strat_full, quick=90, thorough=450),
+        Part("cycle_sweep", body, items=items_cycle_sweep, exhaustive=True),
+        Part("repcode_full", body, strategy=strat_full, quick=80, thorough=450),
         Part("repcode_full_large", body, strategy=strat_full_large, quick=0, thorough=60),
-        Part("repcode_simplified", body, strategy=strat_simplified, quick=100, thorough=600),
+        Part("repcode_simplified", body, strategy=strat_simplified, quick=90, thorough=600),
         Part("multi_round", body, strategy=strat_multi, quick=20, thorough=100),
         Part("calibration", body, strategy=strat_calibration, quick=150, thorough=800),
     ]
